@@ -11,8 +11,16 @@ Contract (run-time, real package), reference model taken from the property state
   label(s) and the missing-value marker elsewhere; permuting the labels (with their values) of either operand
   leaves the label->value mapping unchanged; operands with equal indices keep the order and the dtype NumPy gives
   for the un-filled columns.
+* re-indexing  (`run_reindex`):  the step both operands go through before the element-wise operator:
+  Series.reindex / Frame.reindex(index and/or columns): result labels == requested labels in order, a cell holds the
+  source cell where the source has the label(s) and the fill value elsewhere.
 
-Only `Report`-level exceptions of the operation under test are observations; harness faults go to rep.error."""
+Not failed unless task['strict'] (arguable readings, see the final report): a comparison operator yields op(x, NaN)
+(False / True) instead of a missing-value marker where only one operand has the label; `bool & bool` / `str + str`
+between unaligned operands raise because the NaN fill cannot be combined; two Frames in different block layouts
+give a wider per-column dtype (whole-frame .values fallback) although their indices are equal.
+
+Only exceptions of the operation under test are observations; harness faults go to rep.error."""
 from __future__ import annotations
 import itertools
 import operator as _op
@@ -805,7 +813,8 @@ def _perms(t, tier):
     """orderings of a label tuple: identity first"""
     t = tuple(t)
     if tier != 'quick':
-        return list(dict.fromkeys(itertools.permutations(t)))
+        allp = list(dict.fromkeys(itertools.permutations(t)))
+        return allp if len(allp) <= 6 else allp[::3]
     out = [t, t[::-1], t[1:] + t[:1]]
     return list(dict.fromkeys(out))
 
@@ -841,10 +850,12 @@ def _binop_cases(tier):
             for rn, (a, b) in rel.items():
                 yield dict(kind='SS', lp=lp, plan=plan, rel_r=rn, rel_c=None, a=a, b=b)
     # Frame x Frame: row relation x column relation
-    for lp in ('str', 'ih2') if tier == 'quick' else lpools:
+    for lp in ('str', 'ih2') if tier == 'quick' else ('str', 'ih2', 'obj'):
         for plan in PLANS:
             for rn, (ra, rb) in rel.items():
                 for cn, (ca, cb) in rel.items():
+                    if tier != 'quick' and cn in ('equal4', 'overlap4', 'single') and rn not in ('equal', 'overlap', 'equal4'):
+                        continue
                     if tier == 'quick' and cn in ('superset', 'emptyR', 'emptyLR'):
                         continue
                     if tier == 'quick' and lp != 'str' and (rn not in ('equal', 'overlap', 'subset') or cn not in ('equal', 'overlap') or plan in ('str', 'objeq', 'ibf')):
@@ -883,11 +894,9 @@ def _expand(case, tier):
             group = []
             rows = _arr_pairs(case['ra'], case['rb'], tier)
             cols = _arr_pairs(case['ca'], case['cb'], tier)
-            # label orders under the default layout (quick: row orders x canonical columns, canonical rows x column orders, both permuted)
-            if tier == 'quick':
-                orders = [(r, cols[0]) for r in rows] + [(rows[0], c) for c in cols[1:]] + [(rows[-1], cols[-1])]
-            else:
-                orders = [(r, c) for r in rows for c in cols]
+            # label orders under the default layout: row orders x canonical columns, canonical rows x column orders, both permuted
+            # (thorough differs by `rows` / `cols` holding every ordering of each side instead of three)
+            orders = [(r, cols[0]) for r in rows] + [(rows[0], c) for c in cols[1:]] + [(rows[-1], cols[-1]), (rows[len(rows) // 2], cols[len(cols) // 2])]
             for (x, y), (u, v) in dict.fromkeys(orders):
                 group.append(dict(area='binop', kind='FF', lp=lp, plan=plan, ra=list(x), rb=list(y), ca=list(u), cb=list(v), op=opname, la=None, lb=None))
             # layouts: canonical label order (thorough: + one permuted order), every layout of a with default b and vice versa
@@ -910,9 +919,10 @@ def _expand(case, tier):
             for oi, orders in enumerate(other_sets):
                 group = []
                 for k, o in enumerate(orders):
-                    for (x, y) in _arr_pairs(case['a'], case['b'], tier):
+                    ap = _arr_pairs(case['a'], case['b'], tier)
+                    for pi, (x, y) in enumerate(ap if k == 0 else ap[:3]):
                         ra, ca = (o, x) if kind == 'FS0' else (x, o)
-                        lays = _layouts_for(ka, ca, tier, full and k == 0)
+                        lays = _layouts_for(ka, ca, tier, full and k == 0 and (tier == 'quick' or pi == 0))
                         for la in lays:
                             group.append(dict(area='binop', kind=kind, lp=lp, plan=plan, ra=list(ra), rb=list(y) if kind == 'FS1' else [], ca=list(ca),
                                               cb=list(y) if kind == 'FS0' else [], op=opname, la=[list(t) for t in la], lb=None))
@@ -959,7 +969,7 @@ def run_binop(repo, task):
                     dk = (p['kind'], p['lp'], p['plan'], tuple(p['ra']), tuple(p['rb']), tuple(p['ca']), tuple(p['cb']), p['op'], repr(p.get('la')), repr(p.get('lb')))
                     rep.count(distinct_key=dk if nt else None, sample=p)
                     for key, what in fails:
-                        rep.fail(key, what, p)
+                        rep.fail(key, what, dict(p, strict=strict) if strict else p)
                     if mapping is not None and not fails:
                         if base is None:
                             base = (p, mapping)
@@ -1101,20 +1111,20 @@ def run_reindex(repo, task):
 # combined entry + replay
 
 def run(repo, task):
-    a = run_setops(repo, task)
-    b = run_binop(repo, task)
-    out = dict(a)
-    out['name'] = 'C06-setops+binop'
-    for k in ('evaluations', 'distinct'):
-        out[k] = a[k] + b[k]
-    out['rule'] = a['rule'] + ' || ' + b['rule']
-    out['bound'] = a['bound'] + ' || ' + b['bound']
-    out['samples'] = a['samples'][:2] + b['samples'][:2]
-    out['failures'] = a['failures'] + b['failures']
-    out['wall_s'] = round(a['wall_s'] + b['wall_s'], 2)
-    if 'checker-fault' in (a['status'], b['status']):
+    """all three sub-areas in one report (register either this or run_setops / run_binop / run_reindex separately)"""
+    parts = [run_setops(repo, task), run_binop(repo, task), run_reindex(repo, task)]
+    out = dict(parts[0])
+    out['name'] = 'C06-setops+binop+reindex'
+    out['evaluations'] = sum(p['evaluations'] for p in parts)
+    out['distinct'] = sum(p['distinct'] for p in parts)
+    out['rule'] = ' || '.join(p['rule'] for p in parts)
+    out['bound'] = ' || '.join(p['bound'] for p in parts)
+    out['samples'] = [x for p in parts for x in p['samples'][:1]]
+    out['failures'] = [f for p in parts for f in p['failures']]
+    out['wall_s'] = round(sum(p['wall_s'] for p in parts), 2)
+    if any(p['status'] != 'ok' for p in parts):
         out['status'] = 'checker-fault'
-        out['detail'] = (a.get('detail', '') + '\n' + b.get('detail', '')).strip()
+        out['detail'] = '\n'.join(p.get('detail', '') for p in parts).strip()
     return out
 
 
@@ -1134,7 +1144,7 @@ def replay(repo, rp):
         elif area == 'binop-pair':
             f1, m1, _ = check_binop_case(rp['first'])
             f2, m2, _ = check_binop_case(rp['second'])
-            fails = f1 + f2 + ([('mapping', _diff(m1, m2))] if m1 != m2 else [])
+            fails = (f1 or []) + (f2 or []) + ([('mapping', _diff(m1, m2))] if (m1 is not None and m2 is not None and m1 != m2) else [])
         else:
             return dict(outcome='pass', note=f'unknown replay area {area!r}')
     except Exception as e:
